@@ -14,8 +14,8 @@ from . import runner
 from .runner import Inconclusive
 
 VERIF = runner.VERIF
-EVIDENCE_DIR = os.path.join(VERIF, "evidence")
-REPLAY_DIR = os.path.join(VERIF, "replays")
+EVIDENCE_DIR = os.path.join(VERIF, "evidence") if not runner.ALT else os.path.join(runner.WORK, "evidence")
+REPLAY_DIR = os.path.join(VERIF, "replays") if not runner.ALT else os.path.join(runner.WORK, "replays")
 KNOWN = os.path.join(VERIF, "known_findings.json")
 NPROC = int(os.environ.get("VERIF_JOBS", "16"))
 
@@ -57,6 +57,8 @@ def panic_sig(res):
     body = res[len("panic:"):]
     msg, _, loc = body.rpartition("@")
     f = loc.rsplit(":", 1)[0]
+    if f.startswith(runner.REPO + "/"):
+        f = f[len(runner.REPO) + 1:]
     f = re.sub(r"^.*/repo/", "", f)
     f = re.sub(r"^.*/registry/src/[^/]*/", "dep:", f)
     f = re.sub(r"^.*/rustlib/src/rust/", "std:", f)
